@@ -296,7 +296,7 @@ def _codeconst_summary(repo, prop, summaries):
     """sizes taken from the numeric literals of the monitored source (rtmon/codeconst.py): what was harvested, what was run"""
     try:
         from . import codeconst
-        d = codeconst.summary(repo, cap=getattr(prop, "CONST_CAP", 300000))
+        d = codeconst.summary(repo, cap=getattr(prop, "CONST_CAP", 300000), cap_cells=getattr(prop, "CONST_CAP_CELLS", 1 << 23))
         for k in ("planned", "run", "no_size_drawn"):
             d["cases_" + k] = sum((s.get("codeconst") or {}).get(k, 0) for s in summaries)
         d["stopped_early"] = any((s.get("codeconst") or {}).get("stopped_early") for s in summaries)
